@@ -250,7 +250,7 @@ class Interp:
         if base[0] == 'class' and n.attr in s.consts:
             return LIN(C(s.consts[n.attr]))
         if base[0] == 'validator':
-            return ('validator',)
+            return ('validator', (base[1] + '.' if len(base) > 1 and base[1] else '') + n.attr)
         return ('opaque', ast.unparse(n))
 
     def binop(s, p, n, a, b):
@@ -462,6 +462,7 @@ class Interp:
             out = []
             for q, vals in s.evargs(n.args, p):
                 if len(vals) == 1 and vals[0][0] == 'frame' and vals[0][1] == 'cur':
+                    q.events.append(('ORACLE', dict(bound_to=tgt[1] if len(tgt) > 1 else '', where=s.loc(n))))
                     out.append((q, ('bool', q.valid)))
                 else:
                     q.mark_imprecise('validator applied to something else than the current frame')
@@ -677,7 +678,11 @@ class Interp:
             return [], s._tag([p], n, False)
         if k in ('tuple',):
             return (s._tag([p], n, True), []) if v[1] else ([], s._tag([p], n, False))
-        if k in ('frame', 'validator', 'source', 'method', 'class'):
+        if k == 'frame':
+            # frames are arbitrary objects ("every frame type"): a frame may be falsy (0, "", b"")
+            a, b = p.clone(), p.clone()
+            return s._tag([a], n, True), s._tag([b], n, False)
+        if k in ('validator', 'source', 'method', 'class'):
             return s._tag([p], n, True), []
         if k == 'raised':
             raise Unsupported('exception raised inside a condition at %s' % s.loc(n))
